@@ -134,17 +134,110 @@ theorem k_round_delivery_single (cfg : Cfg) (ops : List SysOp) (s : Sys) (hr : (
       u.submitted ch = s.submitted ch ∧ u.obtained ch = s.submitted ch :=
   rounds_bytes_single cfg ops s hr hda hdb ch hsingle sA hfA rB hfB H3 c hcB hcost rs hR hk1 hk
 
-/-! ## decidability of the hypotheses (to check them on concrete states by evaluation) -/
+/-! ## non-vacuity: concrete runs evaluated by the kernel
 
-instance (L : List Bytes) (r : RecvRel) : Decidable (Room L r) := by unfold Room; infer_instance
+  `ExK` — the configuration of `C01L.ExP`: one ReliableOrdered channel (id 0) each way, 1300 bytes per tick, resend time
+  100 ns.  A submits a 3-byte message (entry 0, cost 3) and a 1300-byte message (entry 1: two slices, cost 2400).  The
+  backlog (2403 bytes) exceeds the budget; two entries are stored, every round covers the oldest one (`q = 1`), so
+  `k = 2` rounds are needed and suffice.
+  Round 1 = `updA 1000 ; flushA (outA[0], outA[1]) ; deliverToB 0, 1 ; recvB 0 twice ; flushB (outB[0]) ; deliverToA 0`;
+  round 2 the same with `outA[2]`, `outA[3]` and `outB[1]`.  (In round 2 entry 1 costs only 1200 bytes: round 1 carried
+  its slice 0 in the 1297 bytes left over, and B acknowledged it.) -/
+namespace ExK
 
-instance (ch : Nat) (p : Packet) : Decidable (OnlyCh ch p) := by
-  cases p <;> unfold OnlyCh <;> infer_instance
+def cfg : Cfg := ⟨1300, [⟨0, .ordered, 100000, 100⟩], [⟨0, .ordered, 100000, 100⟩]⟩
+def m0 : Bytes := [1, 2, 3]
+def m1 : Bytes := List.replicate 1200 7 ++ List.replicate 100 9
+def ops : List SysOp := [.sendA 0 m0, .sendA 0 m1]
+def r1 : RoundP := ⟨1000, [0, 1], 2, 0⟩
+def r2 : RoundP := ⟨1000, [2, 3], 2, 1⟩
 
-theorem forall_find {α : Type} {o : Option α} {a : α} {P : α → Prop} (h : o = some a) (p : P a) :
-    ∀ x, o = some x → P x := by
-  intro x hx
-  rw [h] at hx
-  exact Option.some.inj hx ▸ p
+def s : Sys := ((Sys.init cfg).run ops).getD (Sys.init cfg)
+theorem run_s : (Sys.init cfg).run ops = some s := some_getD (by decide +kernel) _
+def sA : SendRel := (SMap.find? s.a.sendRel 0).getD (SendRel.new 0 0 0)
+theorem find_sA : SMap.find? s.a.sendRel 0 = some sA := some_getD (by decide +kernel) _
+def rB : RecvRel := (SMap.find? s.b.recvRel 0).getD (RecvRel.new 0 true)
+theorem find_rB : SMap.find? s.b.recvRel 0 = some rB := some_getD (by decide +kernel) _
+
+theorem ordered0 : cfg.Ordered 0 := ⟨⟨_, List.mem_singleton.mpr rfl, rfl, rfl⟩, by decide⟩
+
+/-- the standing hypotheses, and the numbers: 2 entries stored, backlog 2403 > 1300 = budget -/
+theorem start : s.a.isDisconnected = false ∧ s.b.isDisconnected = false ∧ Room (s.submitted 0) rB ∧
+    sA.unacked.length = 2 ∧ backlog sA.unacked = 2403 ∧ availAtTurn s.a 0 = 1300 ∧
+    s.submitted 0 = [m0, m1] ∧ s.obtained 0 = [] := by decide +kernel
+
+/-- the side conditions of both rounds (timer, drain, counters, H2 for the oldest entry, H4, lossless delivery, ack
+    cap, the way back), each checked in the state the run reaches -/
+theorem rounds : Rounds cfg 0 (SchedCount 0 1) s [r1, r2] :=
+  rounds_of_b (schedCount_of_b 0 1) _ _ (by decide +kernel)
+
+/-- **`k_round_delivery` applied with `q = 1`, `k = 2`**: the budget (1300) is smaller than the backlog (2403); after
+    two full rounds B's application has obtained both messages -/
+theorem delivered : ∃ u, s.run (roundsOps 0 [r1, r2]) = some u ∧ u.a.isDisconnected = false ∧
+    u.b.isDisconnected = false ∧ u.submitted 0 = s.submitted 0 ∧ u.obtained 0 = s.submitted 0 :=
+  k_round_delivery cfg ops s run_s start.1 start.2.1 0 ordered0 sA find_sA rB find_rB start.2.2.1 1 [r1, r2] rounds
+    (by simp) (by rw [start.2.2.2.1]; decide)
+
+/-- what the kernel computes for that run: after round 1 `[m0]` is obtained and A still stores entry 1, now at the
+    cost of one slice; after round 2 `[m0, m1]` is obtained and A stores nothing -/
+example : (s.run (roundsOps 0 [r1])).map (fun u => (u.obtained 0,
+      (SMap.find? u.a.sendRel 0).map (fun x => x.unacked.map (fun e => (e.1, entryCost e.2))))) =
+      some ([m0], some [(1, 1200)]) ∧
+    (s.run (roundsOps 0 [r1, r2])).map (fun u => (u.obtained 0, (SMap.find? u.a.sendRel 0).map (·.unacked.length))) =
+      some ([m0, m1], some 0) := by decide +kernel
+
+end ExK
+
+/-! `ExB` — single-channel configuration, 1000 bytes per tick; A submits five 400-byte messages: backlog 2000 bytes,
+    every entry costs `c = 400`.  `k_round_delivery_single`: `k * (1000 - 400 + 1) ≥ 2000` holds for `k = 4`.
+    (The run needs three rounds — two messages fit per tick, packed into one datagram —; the fourth finds nothing left
+    to send but A's ack packet.)  The same rounds satisfy `k_round_delivery` with `q = 2`: `3 * 2 ≥ 5`. -/
+namespace ExB
+
+def cfg : Cfg := ⟨1000, [⟨0, .ordered, 100000, 100⟩], [⟨0, .ordered, 100000, 100⟩]⟩
+def msg (b : UInt8) : Bytes := List.replicate 400 b
+def ops : List SysOp := [.sendA 0 (msg 1), .sendA 0 (msg 2), .sendA 0 (msg 3), .sendA 0 (msg 4), .sendA 0 (msg 5)]
+def r1 : RoundP := ⟨1000, [0], 5, 0⟩
+def r2 : RoundP := ⟨1000, [1, 2], 5, 1⟩
+def r3 : RoundP := ⟨1000, [3, 4], 5, 2⟩
+def r4 : RoundP := ⟨1000, [5], 5, 3⟩
+
+def s : Sys := ((Sys.init cfg).run ops).getD (Sys.init cfg)
+theorem run_s : (Sys.init cfg).run ops = some s := some_getD (by decide +kernel) _
+def sA : SendRel := (SMap.find? s.a.sendRel 0).getD (SendRel.new 0 0 0)
+theorem find_sA : SMap.find? s.a.sendRel 0 = some sA := some_getD (by decide +kernel) _
+def rB : RecvRel := (SMap.find? s.b.recvRel 0).getD (RecvRel.new 0 true)
+theorem find_rB : SMap.find? s.b.recvRel 0 = some rB := some_getD (by decide +kernel) _
+
+theorem single0 : Single cfg 0 := ⟨_, _, rfl⟩
+
+theorem start : s.a.isDisconnected = false ∧ s.b.isDisconnected = false ∧ Room (s.submitted 0) rB ∧
+    sA.unacked.length = 5 ∧ backlog sA.unacked = 2000 ∧ (∀ x ∈ sA.unacked, entryCost x.2 ≤ 400) ∧
+    s.obtained 0 = [] := by decide +kernel
+
+theorem rounds4 : Rounds cfg 0 (fun _ => True) s [r1, r2, r3, r4] :=
+  rounds_of_b (schedb := fun _ => true) (fun _ _ => trivial) _ _ (by decide +kernel)
+
+/-- **`k_round_delivery_single` applied with `c = 400`, `k = 4`**: `2000 ≤ 4 * (1000 - 400 + 1)` -/
+theorem delivered : ∃ u, s.run (roundsOps 0 [r1, r2, r3, r4]) = some u ∧ u.a.isDisconnected = false ∧
+    u.b.isDisconnected = false ∧ u.submitted 0 = s.submitted 0 ∧ u.obtained 0 = s.submitted 0 :=
+  k_round_delivery_single cfg ops s run_s start.1 start.2.1 0 single0 sA find_sA rB find_rB start.2.2.1 400 (by decide)
+    start.2.2.2.2.2.1 [r1, r2, r3, r4] rounds4 (by simp) (by rw [start.2.2.2.2.1]; decide)
+
+theorem rounds3 : Rounds cfg 0 (SchedCount 0 2) s [r1, r2, r3] :=
+  rounds_of_b (schedCount_of_b 0 2) _ _ (by decide +kernel)
+
+/-- **`k_round_delivery` applied with `q = 2`, `k = 3`**: `5 ≤ 3 * 2` -/
+theorem delivered3 : ∃ u, s.run (roundsOps 0 [r1, r2, r3]) = some u ∧ u.a.isDisconnected = false ∧
+    u.b.isDisconnected = false ∧ u.submitted 0 = s.submitted 0 ∧ u.obtained 0 = s.submitted 0 :=
+  k_round_delivery cfg ops s run_s start.1 start.2.1 0 (single_ordered single0) sA find_sA rB find_rB start.2.2.1 2
+    [r1, r2, r3] rounds3 (by simp) (by rw [start.2.2.2.1]; decide)
+
+/-- what the kernel computes: 2, 4, 5 messages obtained after 1, 2, 3 rounds -/
+example : (s.run (roundsOps 0 [r1])).map (fun u => (u.obtained 0).length) = some 2 ∧
+    (s.run (roundsOps 0 [r1, r2])).map (fun u => (u.obtained 0).length) = some 4 ∧
+    (s.run (roundsOps 0 [r1, r2, r3])).map (fun u => u.obtained 0 == u.submitted 0) = some true := by decide +kernel
+
+end ExB
 
 end RenetVerif.C01K
